@@ -331,6 +331,61 @@ def _roundtrip_once(cfg, factor, big):
     return bool(bad), {'parsed values that are not the number printed under their label / in their cell': bad[:8]}
 
 
+def heading_units(text, title):
+    """the parenthesised units of the heading lines the report prints between a table's title box and its first data row."""
+    lines = text.splitlines()
+    for i, ln in enumerate(lines):
+        if ln.strip().strip('*').strip() == title:
+            out = []
+            for h in lines[i + 2:i + 8]:
+                if re.match(r'^\s*[0-9#]', h) and '(' not in h:
+                    break
+                out += re.findall(r'\(([^()]*)\)', h)
+            return out
+    return []
+
+
+KNOWN_HEADING = {'REVENUE & CASHFLOW PROFILE': ('cents/kWh', 'USD/kWh')}      # (unit the client hard-codes, unit the report prints) for the price columns
+
+
+def _known_heading_deviation(title, hc, hr):
+    pair = KNOWN_HEADING.get(title)
+    if pair is None or len(hc) != len(hr):
+        return []
+    return [i for i, (a, b) in enumerate(zip(hc, hr)) if (a, b) == pair]
+
+
+def _mask(units, positions):
+    return [u for i, u in enumerate(units) if i not in positions]
+
+
+def concrete_heading(cfg, title, key, masked=False):
+    """replay: real writer, real client on a real file."""
+    import contextlib
+    import os
+    import shutil
+    import tempfile
+    from geophires_x import Outputs as O
+    m = c09.prepared(cfg).reset()
+    d = tempfile.mkdtemp(prefix='symx_c10h_')
+    try:
+        path = os.path.join(d, 'r.out')
+        m.outputs.output_file = path
+        with contextlib.redirect_stdout(io.StringIO()), shim.shadow((O, 'print_outputs_rich', lambda *a, **k: None), (O.Outputs, '_convert_units', lambda self, model: None)):
+            m.outputs.PrintOutputs(m)
+            writer.print_sections(m)
+        text = open(path).read()
+        prof = GR.GeophiresXResult(path).result.get(key)
+    finally:
+        shutil.rmtree(d, ignore_errors=True)
+    hc = [u for h in (prof[0] if prof else []) for u in re.findall(r'\(([^()]*)\)', str(h))]
+    hr = heading_units(text, title)
+    if masked:
+        dev = _known_heading_deviation(title, hc, hr)
+        return bool(hc and hr and (_mask(hc, dev) != _mask(hr, dev) or len(hc) != len(hr))), {'client column units': hc, 'units printed in the heading': hr}
+    return bool(hc and hr and hc != hr), {'client column units': hc, 'units printed in the heading': hr}
+
+
 def run_unit(unit):
     if unit.get('harness') == 'json':
         from . import c10json
@@ -417,6 +472,17 @@ def run_unit(unit):
             harness.discharge(log, c, f'table "{key}" is extracted', prof is not None and len(prof) >= 1, zv, conc)
             if not prof:
                 continue
+            # units the client attaches to the columns are the units the report's heading prints for them
+            hu_client = [u for h in prof[0] for u in re.findall(r'\(([^()]*)\)', str(h))]
+            hu_report = heading_units(text, title)
+            if hu_client and hu_report:
+                dev = _known_heading_deviation(title, hu_client, hu_report)
+                harness.discharge(log, c, f'table "{key}": the column units the client returns are the units printed in the table heading',
+                                  _mask(hu_client, dev) == _mask(hu_report, dev) and len(hu_client) == len(hu_report), zv,
+                                  lambda inp, title=title, key=key: concrete_heading(cfg, title, key, masked=True))
+                if dev:
+                    harness.discharge(log, c, f'table "{key}": the price columns carry the unit printed in the heading [recorded: client says cents/kWh, report prints USD/kWh]',
+                                      False, zv, lambda inp, title=title, key=key: concrete_heading(cfg, title, key), finding='C10-revenue-table-price-unit-hard-coded')
             body = prof[1:]
             harness.discharge(log, c, f'table "{key}": one parsed row per printed row (no dropped rows)', len(body) == len(rows), zv, conc)
             if len(body) != len(rows):
